@@ -434,7 +434,7 @@ def r3(R):
 
 @rule('C05.R4', 'every transaction starts from an empty staging area '
       '(nothing staged by an aborted or failed transaction can be committed '
-      'by the next one)', props=['C03', 'C11'], min_instances=2)
+      'by the next one)', props=['C03', 'C04', 'C11'], min_instances=2)
 def r4(R):
     # FileStorage: tpc_begin runs _clear_temp (tindex cleared, tfile rewound)
     cls = R.prog.cls(FS)
